@@ -208,6 +208,33 @@ def job_precomputed_dtype():
     return res
 
 
+def job_score_named_ignores_y():
+    """CONCRETE witness: with a NAMED kernel / metric (or a callable, or a GEMINI given by name or instance) the affinity is computed from
+    the data; a matrix passed as y to score() is not used -- score(X, M) == score(X) for any square M"""
+    res = _new()
+    lin = loader.real("linear._linear_geminis")
+    mlp = loader.real("mlp._mlp_geminis")
+    gm = loader.real("gemini")
+    rs = np.random.RandomState(2)
+    X = np.vstack([rs.normal(size=(8, 2)) + 2, rs.normal(size=(8, 2)) - 2])
+    M = np.abs(rs.normal(size=(16, 16)))
+    M = M + M.T
+    cases = [("LinearMMD(rbf)", lambda: lin.LinearMMD(n_clusters=2, kernel="rbf", kernel_params={"gamma": 0.3}, max_iter=3, random_state=0)),
+             ("LinearWasserstein(manhattan)", lambda: lin.LinearWasserstein(n_clusters=2, metric="manhattan", max_iter=3, random_state=0)),
+             ("MLPMMD(linear, ovo)", lambda: mlp.MLPMMD(n_clusters=2, ovo=True, max_iter=3, random_state=0)),
+             ("LinearModel(gemini='wasserstein_ova')", lambda: lin.LinearModel(n_clusters=2, gemini="wasserstein_ova", max_iter=3, random_state=0)),
+             ("LinearModel(gemini=MMDGEMINI(rbf))", lambda: lin.LinearModel(n_clusters=2, gemini=gm.MMDGEMINI(kernel="rbf"), max_iter=3, random_state=0))]
+    for nm, mk in cases:
+        res["paths"] += 1
+        m = mk().fit(X)
+        a, b = float(m.score(X)), float(m.score(X, M))
+        ok = abs(a - b) <= 1e-12 * max(1.0, abs(a))
+        res["obligations"].append({"name": f"score-named/{nm}: score(X, M) == score(X)", "verdict": "unsat" if ok else "sat", "how": "concrete run", "values": [a, b]})
+        if not ok and not res["violations"]:
+            res["violations"].append({"signature": f"{PROP}:score:named-uses-y", "what": f"{nm}: score(X, M) = {b} uses the matrix passed as y although the affinity is named; score(X) = {a}", "replay": {"kind": "score-named"}})
+    return res
+
+
 def job_kernels():
     loader.install()
     res = _new()
@@ -398,6 +425,8 @@ def replay(rep, verbose=False):
     X = rng.normal(size=(5, 2))
     T = rng.normal(size=(6, 2))
     short = rep.get("short", "")
+    if kind == "score-named":
+        return bool(job_score_named_ignores_y()["violations"])
     if kind == "precomputed-dtype":
         return any(v["replay"]["cls"] == rep["cls"] for v in job_precomputed_dtype()["violations"])
     try:
@@ -546,7 +575,8 @@ def jobs(tier):
     out = [{"name": "gemini", "target": "checks.c11:job_gemini", "kwargs": {}, "timeout": 280},
            {"name": "kernels", "target": "checks.c11:job_kernels", "kwargs": {}, "timeout": 280},
            {"name": "same-kauri", "target": "checks.c11:job_same_kauri", "kwargs": {}, "timeout": 280},
-           {"name": "precomputed-dtype", "target": "checks.c11:job_precomputed_dtype", "kwargs": {}, "timeout": 120}]
+           {"name": "precomputed-dtype", "target": "checks.c11:job_precomputed_dtype", "kwargs": {}, "timeout": 120},
+           {"name": "score-named", "target": "checks.c11:job_score_named_ignores_y", "kwargs": {}, "timeout": 120}]
     sf = [("LinearMMD", (3, 2, 2), {"kernel": "rbf", "kernel_params": {"gamma": 0.5}}, None), ("LinearMMD", (3, 2, 2), {"kernel": "rbf", "kernel_params": {"gamma": 0.5}, "ovo": True}, 2),
           ("LinearWasserstein", (3, 2, 2), {"metric": "cosine"}, 2), ("MLPMMD", (3, 1, 1, 2), {"kernel": "sigmoid"}, None), ("SparseLinearMMD", (3, 2, 2), {"kernel": "rbf"}, 2),
           ("CategoricalMMD", (3, 2), {"kernel": "rbf"}, None)]
